@@ -81,6 +81,12 @@ def mem_for(rng, count):
         if count % a == 0:
             b = count // a
             pa, pb = rng.randint(0, 2), rng.randint(0, 2)
+            if rng.random() < 0.5 and a > 1 and b > 1:
+                # different strides in the two memory dimensions (a back end that mixes up which stride belongs to
+                # which dimension takes the values from other memory positions)
+                sa, sb = rng.choice([(2, 1), (1, 2), (3, 2), (2, 3), (1, 3)])
+                return [pa + (a - 1) * sa + 1 + rng.randint(0, 1), pb + (b - 1) * sb + 1 + rng.randint(0, 1)], \
+                       [(1 + pa, pa + (a - 1) * sa + 1, sa), (1 + pb, pb + (b - 1) * sb + 1, sb)]
             return [a + pa, b + pb], [(1 + pa, a + pa, 1), (1, b, 1)]
     return [count], [(1, count, 1)]
 
@@ -151,6 +157,24 @@ def gen_history(rng, nops, files=(1,), backend="BE", big=False, wide=False, path
     for i in range(nops):
         f = rng.choice(files)
         m = M[f]
+        if wide and i % 12 == 11 and mode[f] != "r":
+            # directed (wide parents): a child far behind in a parent whose child table spans several disk blocks is
+            # listed in a small window, renamed, and the same window and its neighbours are listed again at once --
+            # what a cache holds for an entry of the later blocks must follow the rename
+            par = max(m.alive(), key=lambda x: len(m.kids(x)))
+            ks = m.kids(par)
+            if len(ks) >= 8:
+                j = rng.randint(max(0, len(ks) * 2 // 3), len(ks) - 1)
+                u = ks[j]
+                lo = max(1, j + 1 - rng.randint(0, 2)); cnt = rng.randint(2, 4)
+                lines.append("names %d %d %d %d" % (f, par, lo, cnt))
+                nm = rand_name(rng, {m.nodes[k]["name"] for k in ks})
+                lines.append("rename %d %d %d %s" % (f, par, u, hx(nm)))
+                m.nodes[u]["name"] = nm
+                lines.append("names %d %d %d %d" % (f, par, lo, cnt))
+                lines.append("names %d %d %d %d" % (f, par, max(1, lo - 2), cnt + 3))
+                lines.append("lookup %d %d %s" % (f, par, hx(nm)))
+                continue
         alive = m.alive()
         nonroot = [u for u in alive if u != 0]
         data_nodes = [u for u in nonroot if m.nodes[u]["dt"] != "MT"]
@@ -302,7 +326,7 @@ def gen_history(rng, nops, files=(1,), backend="BE", big=False, wide=False, path
             lines.append("reopen %d %s" % (f, md)); mode[f] = md
         else:
             # the malformed stream: duplicate / empty / over-long / slashed names, unknown handles, bad ranges
-            k = rng.randint(0, 9)
+            k = rng.randint(0, 10)
             if k == 7 and len(nonroot) > 2:
                 # a move onto a name the new parent already has: refused, nothing changes
                 pairs = [(u, v) for u in nonroot for v in nonroot if u != v and m.nodes[u]["name"] == m.nodes[v]["name"]
@@ -333,6 +357,23 @@ def gen_history(rng, nops, files=(1,), backend="BE", big=False, wide=False, path
                 longer = (nm + b"x" * 33)[:33]
                 lines.append("lookup %d %d %s" % (f, m.nodes[u]["parent"], hx(longer)))
                 lines.append("lookup %d 0 %s" % (f, hx(m.path(m.nodes[u]["parent"]).rstrip(b"/") + b"/" + longer)))
+            elif k == 10 and not ro:
+                # names of the maximum length: a 32-character child and its 31-character prefix are different names --
+                # the prefix is not found while it does not exist, can be created beside it, and each then finds its own node
+                p = rng.choice(alive) if m.depth(rng.choice(alive)) < 6 else 0
+                taken = {m.nodes[c]["name"] for c in m.kids(p)}
+                full = bytes(rng.choice(NAME_ALPHA.strip()) for _ in range(32))
+                if full not in taken and full[:31] not in taken:
+                    u = m.next; m.next += 1
+                    lines.append("create %d %d %d %s" % (f, p, u, hx(full)))
+                    m.nodes[u] = dict(parent=p, name=full, dt="MT", dims=[], written=False)
+                    lines.append("lookup %d %d %s" % (f, p, hx(full[:31])))
+                    w = m.next; m.next += 1
+                    lines.append("create %d %d %d %s" % (f, p, w, hx(full[:31])))
+                    m.nodes[w] = dict(parent=p, name=full[:31], dt="MT", dims=[], written=False)
+                    lines.append("label %d %d %s" % (f, w, hx(b"Short")))
+                    lines.append("lookup %d %d %s" % (f, p, hx(full[:31])))
+                    lines.append("lookup %d %d %s" % (f, p, hx(full)))
             elif k == 0 and nonroot:
                 u = rng.choice(nonroot); p = m.nodes[u]["parent"]
                 lines.append("create %d %d %d %s" % (f, p, 4000 + i % 90, hx(m.nodes[u]["name"])))
@@ -364,6 +405,41 @@ def gen_history(rng, nops, files=(1,), backend="BE", big=False, wide=False, path
                 if m.nodes[u]["dt"] != "MT" and m.nodes[u]["written"]:
                     lines.append("rall %d %d" % (f, u))
         lines.append("closef %d" % f)
+    return lines
+
+
+def gen_wide_rename(rng, backend="BE", path="F1.cgns"):
+    """directed history: ONE parent with 95..140 children (its child table spans more than one 4096-byte disk block and more
+    entries than the 50-entry cache holds); children at every position -- in particular behind the first block -- are listed
+    in a small window, renamed, listed again in that window and in overlapping ones, looked up by the new and by the old
+    name; at the end everything is read back after a reopen"""
+    lines = ["file 1 %s %s w" % (path, backend), "create 1 0 1 %s" % hx(b"Parent")]
+    n = rng.randint(95, 140)
+    names = {}
+    for k in range(n):
+        u = 2 + k
+        nm = rand_name(rng, set(names.values()))
+        names[u] = nm
+        lines.append("create 1 1 %d %s" % (u, hx(nm)))
+    order = list(range(2, 2 + n))
+    picks = [rng.randint(0, 5), rng.randint(40, 60)] + [rng.randint(86, n - 1) for _ in range(6)] + [n - 1]
+    for j in picks:
+        u = order[j]
+        lo = max(1, j + 1 - rng.randint(0, 2)); cnt = rng.randint(2, 4)
+        lines.append("names 1 1 %d %d" % (lo, cnt))
+        old = names[u]
+        nm = rand_name(rng, set(names.values()))
+        lines.append("rename 1 1 %d %s" % (u, hx(nm)))
+        names[u] = nm
+        lines.append("names 1 1 %d %d" % (lo, cnt))
+        lines.append("names 1 1 %d %d" % (max(1, lo - 2), cnt + 3))
+        lines.append("lookup 1 1 %s" % hx(nm))
+        lines.append("lookup 1 1 %s" % hx(old))
+        lines.append("info 1 %d 0" % u)
+    lines.append("reopen 1 r")
+    lines.append("nchild 1 1")
+    lines.append("names 1 1 1 %d" % (n + 1))
+    lines.append("closef 1")
     return lines
 
 
